@@ -20,7 +20,8 @@ class Socket(base_socket.BaseSocket):
             raise exceptions.QueueEmpty()
         if packets == [None]:
             return []
-        while True:
+        # do not return more packets than the other side accepts in a payload
+        while len(packets) < payload.Payload.max_decode_packets:
             try:
                 pkt = self.queue.get(block=False)
                 self.queue.task_done()
